@@ -18,7 +18,7 @@ from vf import core, solvers, autosmt as A, csmt, cengine
 from vf.cspec import eq, AND, OR, NOT, IMP
 from vf.core import HOLDS, VIOLATION, INCONCLUSIVE
 
-KINDS = ("c19-forged-assignment", "c19-honest-rejected", "c19-table", "c19-b64-table")
+KINDS = ("c19-forged-assignment", "c19-honest-rejected", "c19-table", "c19-b64-table", "c19-libtable")
 F_PARSE = ["circuits/src/parsing/automaton_chip.rs::AutomatonChip::parse", "circuits/src/parsing/automaton_chip.rs::AutomatonChip::apply_one_transition",
            "circuits/src/parsing/automaton_chip.rs::AutomatonChip::assert_final_state", "circuits/src/parsing/automaton_chip.rs::AutomatonChip::load"]
 F_B64 = ["circuits/src/parsing/base64_chip.rs::Base64Chip::decode_base64", "circuits/src/parsing/base64_chip.rs::Base64Chip::process_padded_chunk",
@@ -432,6 +432,272 @@ def b64_jobs(run, tier):
     return J
 
 
+
+# ------------------------------------------------------------------------------------------------
+# AutomatonChip with SEVERAL automata in one chip (one shared lookup table, per-automaton state offsets)
+# ------------------------------------------------------------------------------------------------
+# Added after seeded change C19-c was missed: `Automaton::offset_states` / `from_collection` handing out
+# overlapping state ranges to different automata of one chip. The single-automaton harness never runs the
+# offset logic. Here the chip's library holds 2 / 3 REAL compilations with different state counts,
+# alphabets and markers; the specification of `parse(i, ..)` is written from automaton i compiled ALONE
+# (dump of its own `to_automaton()`, no offsets, never the merged table).
+
+F_LIB = F_PARSE + ["circuits/src/parsing/automaton_chip.rs::NativeAutomaton::from_collection", "circuits/src/parsing/automaton.rs::Automaton::offset_states"]
+
+
+def lib_regexes():
+    """A = `id=[0-9]+;+`, digits marked 1 (7 states);  B = any bytes, all marked 7 (1 state);
+    C = `#[a-f]*`, letters marked 3 (2 states)."""
+    dig = [None] * 256
+    for c in range(0x30, 0x3A):
+        dig[c] = 1
+    hexl = [None] * 256
+    for c in range(0x61, 0x67):
+        hexl[c] = 3
+    ra = A._n("cat", [A._w("id="), A._u("non_empty_list", A._u("mark", {"op": "digit"}, table=dig)), A._u("non_empty_list", A._w(";"))])
+    rb = A._u("list", A._u("mark", {"op": "any_byte"}, table=[7] * 256))
+    rc = A._n("cat", [A._b('#'), A._u("list", A._u("mark", A._b(*"abcdef"), table=hexl))])
+    return {"lib2": [("A", ra), ("B", rb)], "lib3": [("A", ra), ("B", rb), ("C", rc)]}
+
+
+def lib_params(lib, calls, lens):
+    return {"lib": json.dumps([r for _, r in lib], separators=(",", ":")), "call": ":".join(str(c) for c in calls), "split": ":".join(str(n) for n in lens)}
+
+
+def lib_spec(e, I, O, system):
+    """for every `parse` call of the circuit: its slice of the input is accepted by the automaton it names
+    (that automaton's OWN dump) and its slice of the exposed markers is the marking of that run."""
+    ex = system.d["extra"]
+    conj = []
+    defined = set()
+    for c in ex["calls"]:
+        j = c["index"]
+        auto = A.Auto(ex["automata"][j])
+        if j not in defined:
+            e.lines += auto.smt_defs(f"au{j}")
+            defined.add(j)
+        Ii, Oi = I[c["from"]:c["to"]], O[c["from"]:c["to"]]
+        n = len(Ii)
+        st = ["%d" % auto.init]
+        for i in range(n):
+            nm = e.fresh("ps")
+            e.lines.append(f"(assert (= {nm} (au{j}_t {st[-1]} {A_(Ii[i])})))")   # definitional
+            st.append(nm)
+        conj += [f"(au{j}_f {st[n]})"] + [f"(>= {st[i + 1]} 0)" for i in range(n)] + [f"(= {A_(Oi[i])} (au{j}_m {st[i]} {A_(Ii[i])}))" for i in range(n)]
+    return AND(*conj)
+
+
+def lib_one(run, libname, lib, autos, calls, words):
+    k = 10
+    names = "+".join(lib[c][0] for c in calls)
+    lens = [len(w) for w in words]
+    oid = f"C/parse-lib[{libname},parse={names},n={'+'.join(map(str, lens))}]"
+    ob = core.Ob(oid, "C", "chip holding several automata: constraints emitted by AutomatonChip::parse(i, ..) imply that the input is accepted by automaton i ALONE (its own compilation) and the returned markers are those of its run",
+                 functions=F_LIB, bound=f"library of {len(lib)} automata ({', '.join('%s: %d states' % (lib[j][0], autos[j].nb) for j in range(len(lib)))}); parse calls on {names}, input lengths {lens}; every byte / marker / state cell symbolic; k={k}",
+                 key=f"parse-lib:{libname}")
+    run.add(ob)
+    if _skip(run, ob):
+        return
+    t0 = time.time()
+    try:
+        A.c_decide(run, ob, "automaton", "parse", lib_params(lib, calls, lens), [b for w in words for b in w], lib_spec, k=k, timeout=120, enc_cls=A.RowKeyEnc,
+                   label=f"[library {libname}, parse with {names}, input lengths {lens}]")
+    except Exception as ex:  # noqa
+        import traceback
+        ob.set(INCONCLUSIVE, f"engine error {ex!r} {traceback.format_exc()[-300:]}")
+    run.log(f"{ob.status:12s} {oid} {ob.solver or ''} {ob.solver_s:.1f}s/{time.time() - t0:.1f}s {ob.detail[:200]}")
+
+
+def lib_table_facts(system):
+    """(rows of the merged lookup table, [Auto of every library automaton alone])"""
+    lk = [l for l in system.d["lookups"] if l["name"].startswith("automaton transition check")]
+    if len(lk) != 1:
+        return None, None
+    table = sorted({tuple(int(x, 16) for x in row) for row in lk[0]["table"]})
+    return table, [A.Auto(d) for d in system.d["extra"]["automata"]]
+
+
+def lib_used(auto):
+    return sorted({auto.init} | set(auto.final) | {s for s, b, t, m in auto.raw} | {t for s, b, t, m in auto.raw})
+
+
+def lib_rows(auto, o):
+    return {(s + o, b, t + o, m) for s, b, t, m in auto.raw} | {(f + o, 256, 0, 0) for f in auto.final}
+
+
+def lib_table_ground(table, autos, limit=200000):
+    """Python twin of the table obligation (replays only): is there an offset per automaton with
+    placement, disjointness of the used state numbers, and exactness?"""
+    import itertools
+    T = set(table)
+    mx = max(r[0] for r in table) + 1
+    cands = []
+    for a in autos:
+        cands.append([o for o in range(1, mx + 1) if lib_rows(a, o) <= T])
+    n = 0
+    for os_ in itertools.product(*cands):
+        n += 1
+        if n > limit:
+            return None
+        used = [set(s + o for s in lib_used(a)) for a, o in zip(autos, os_)]
+        if any(used[i] & used[j] for i in range(len(autos)) for j in range(i)):
+            continue
+        if T == {(0, 0, 0, 0)}.union(*[lib_rows(a, o) for a, o in zip(autos, os_)]):
+            return list(os_)
+    return []
+
+
+def lib_table_obligation(run, libname, lib, system, cx):
+    """Structure of the merged table, decided on the table extracted from the real chip:
+         EXISTS offsets o_j >= 1 (one per automaton) such that
+           placement     every transition (s,b,t,m) of automaton j is the row (s+o_j, b, t+o_j, m), every final f the row (f+o_j,256,0,0);
+           disjointness  the state numbers used by the rows of different automata are pairwise different (and none is 0);
+         and with these offsets, FOR EVERY 4-tuple x
+           exactness     x in table  <=>  x = (0,0,0,0) or x is one of those rows;
+           closure       a row whose source is a state of automaton j has its target among automaton j's states (or is j's
+                         final-state sentinel), a row with source 0 is (0,0,0,0)."""
+    oid = f"C/parse-lib[{libname}]:table"
+    ob = core.Ob(oid, "C", "merged lookup table of a chip with several automata = (0,0,0,0) + for every automaton its own transitions and final-state sentinels shifted by one offset per automaton, the shifted state sets being pairwise disjoint, without 0, and closed under the table's rows",
+                 functions=[F_PARSE[3], F_LIB[-2], F_LIB[-1]], bound="every 4-tuple, every state number, every choice of offsets", key=f"parse-lib:{libname}:table")
+    run.add(ob)
+    if _skip(run, ob):
+        return
+    table, autos = lib_table_facts(system)
+    if table is None:
+        return ob.set(INCONCLUSIVE, "expected exactly one automaton lookup")
+    K = len(autos)
+    mx = max(r[0] for r in table) + 1
+
+    def pred(name, rows):
+        by = {}
+        for r in rows:
+            by.setdefault(r[0], []).append(r[1:])
+        disj = " ".join("(and (= x0 %d) (or false %s))" % (a, " ".join("(and (= x1 %d) (= x2 %d) (= x3 %d))" % r for r in rest)) for a, rest in sorted(by.items()))
+        return f"(define-fun {name} ((x0 Int) (x1 Int) (x2 Int) (x3 Int)) Bool (or false {disj}))"
+
+    head = ["(set-logic ALL)", pred("tab", table)]
+    offs = [f"o{j}" for j in range(K)]
+    decl = [f"(declare-const {o} Int)(assert (and (<= 1 {o}) (<= {o} {mx})))" for o in offs]
+    place = []
+    for j, a in enumerate(autos):
+        for s, b, t, m in a.raw:
+            place.append(f"(assert (tab (+ {s} o{j}) {b} (+ {t} o{j}) {m}))")
+        for f in sorted(a.final):
+            place.append(f"(assert (tab (+ {f} o{j}) 256 0 0))")
+    dis = []
+    for i in range(K):
+        for j in range(i):
+            for s in lib_used(autos[i]):
+                for t in lib_used(autos[j]):
+                    dis.append(f"(assert (not (= (+ {s} o{i}) (+ {t} o{j}))))")
+
+    def fail(kind, detail, solver=None, **kw):
+        g = lib_table_ground(table, autos)
+        if g == []:
+            path = run.write_replay(ob, dict(kind="c19-libtable", ax=cx, what=kind, **kw))
+            return ob.set(VIOLATION, detail, solver=solver, replay=path)
+        return ob.set(INCONCLUSIVE, f"solver says '{kind}' but the ground re-evaluation on the dumped table finds offsets {g}")
+
+    # 1. existence of offsets (this satisfiable query is also the vacuity twin of the universal ones below)
+    r = solvers.solve("\n".join(head + decl + place + dis), timeout=60, get_values=offs)
+    ob.queries += 1
+    ob.solver_s += r.time_s
+    if r.status == "unsat":
+        r2 = solvers.solve("\n".join(head + decl + place), timeout=60, get_values=offs)
+        ob.queries += 1
+        if r2.status == "sat":
+            o = [r2.model[x] for x in offs]
+            used = [set(s + o[j] for s in lib_used(autos[j])) for j in range(K)]
+            clash = sorted((i, j, sorted(used[i] & used[j])) for i in range(K) for j in range(i) if used[i] & used[j])
+            txt = "; ".join(f"{lib[j][0]} and {lib[i][0]} share state number(s) {c}" for i, j, c in clash)
+            return fail("overlap", f"the automata of one chip do not get disjoint state numbers in the shared lookup table: with the only placement of their transitions found (offsets {dict((lib[j][0], o[j]) for j in range(K))}) {txt} -- no choice of offsets gives both placement and disjointness",
+                        solver=r.solver, offsets=o)
+        if r2.status == "unsat":
+            return fail("missing-rows", "no choice of offsets places every automaton's transitions and final-state sentinels in the loaded lookup table", solver=r.solver)
+        return ob.set(INCONCLUSIVE, f"solver {r2.status} on the placement query")
+    if r.status != "sat":
+        return ob.set(INCONCLUSIVE, f"solver {r.status} {r.raw[:160]}")
+    ob.vacuity = True
+    o = [r.model[x] for x in offs]
+    # 2. exactness, 3. closure: universal in the tuple, offsets fixed to the witness
+    exp = sorted({(0, 0, 0, 0)}.union(*[lib_rows(a, oj) for a, oj in zip(autos, o)]))
+    X = "(declare-const x0 Int)(declare-const x1 Int)(declare-const x2 Int)(declare-const x3 Int)"
+    r = solvers.solve("\n".join(head + [pred("exp", exp), X, "(assert (not (= (tab x0 x1 x2 x3) (exp x0 x1 x2 x3))))"]), timeout=60, get_values=["x0", "x1", "x2", "x3"])
+    ob.queries += 1
+    ob.solver_s += r.time_s
+    if r.status == "sat":
+        t = tuple(r.model.get(f"x{i}", 0) for i in range(4))
+        return fail("not-exact", f"with offsets {o}: tuple {t} in the loaded lookup table: {t in set(table)}; among the shifted transitions / sentinels of the library: {t in set(exp)}", solver=r.solver, tuple=list(t), offsets=o)
+    if r.status != "unsat":
+        return ob.set(INCONCLUSIVE, f"solver {r.status} on exactness")
+    inU = lambda j, x: "(or false " + " ".join(f"(= {x} {s + o[j]})" for s in lib_used(autos[j])) + ")"
+    closed = ["(=> (= x0 0) (and (= x1 0) (= x2 0) (= x3 0)))", "(or (= x0 0) " + " ".join(inU(j, "x0") for j in range(K)) + ")"]
+    for j in range(K):
+        closed.append(f"(=> {inU(j, 'x0')} (or {inU(j, 'x2')} (and (= x1 256) (= x2 0) (= x3 0))))")
+        closed += [f"(not (and {inU(j, 'x0')} {inU(i, 'x0')}))" for i in range(j)]
+    r = solvers.solve("\n".join(head + [X, "(assert (tab x0 x1 x2 x3))", "(assert (not (and " + " ".join(closed) + ")))"]), timeout=60, get_values=["x0", "x1", "x2", "x3"])
+    ob.queries += 1
+    ob.solver_s += r.time_s
+    if r.status == "sat":
+        t = tuple(r.model.get(f"x{i}", 0) for i in range(4))
+        return fail("not-closed", f"with offsets {o}: table row {t} leaves the state set of the automaton its source state belongs to", solver=r.solver, tuple=list(t), offsets=o)
+    if r.status != "unsat":
+        return ob.set(INCONCLUSIVE, f"solver {r.status} on closure")
+    ob.set(HOLDS, solver=r.solver, detail=f"{len(table)} rows; offsets {dict((lib[j][0], o[j]) for j in range(K))}")
+
+
+def lib_jobs(run, tier):
+    quick = tier == "quick"
+    lens = range(3, 7) if quick else range(3, 11)
+    jobs = []
+    libs = lib_regexes()
+    uniq = {}
+    for lib in libs.values():
+        for nm, r in lib:
+            uniq[nm] = r
+    comps = A.ax_compile(list(uniq.items()))
+    bad = [nm for nm in uniq if not comps[nm].get("ok")]
+    if bad:
+        ob = core.Ob("C/parse-lib", "C", "regexes of the multi-automaton library compile")
+        run.add(ob)
+        ob.set(INCONCLUSIVE, f"compilation failed: {[(nm, comps[nm]) for nm in bad]}")
+        return []
+    au = {nm: A.Auto(comps[nm]["automaton"]) for nm in uniq}
+    seed = core.seed()
+    for libname, lib in libs.items():
+        autos = [au[nm] for nm, _ in lib]
+        # one call per circuit: every automaton of the library, every length with an accepted word
+        for j in range(len(lib)):
+            for n in lens:
+                w = accepted_word(autos[j], n, seed + 7 * j)
+                if w is not None:
+                    jobs.append(lambda libname=libname, lib=lib, autos=autos, j=j, w=w: lib_one(run, libname, lib, autos, [j], [w]))
+        # several calls in one circuit, in library order (lib2: the region order of the seeded demo: A then B);
+        # the same extraction feeds the table obligation
+        ws = []
+        for j in range(len(lib)):
+            n = next(n for n in list(range(3 + (seed + j) % 2, 12)) if accepted_word(autos[j], n, seed) is not None)
+            ws.append(accepted_word(autos[j], n, seed))
+        calls = list(range(len(lib)))
+
+        def both(libname=libname, lib=lib, autos=autos, calls=calls, ws=ws):
+            lib_one(run, libname, lib, autos, calls, ws)
+            try:
+                ins = [b for w in ws for b in w]
+                params = lib_params(lib, calls, [len(w) for w in ws])
+                system = A.c_extract("automaton", "parse", params, ins, 10)
+                lib_table_obligation(run, libname, lib, system, cengine.cx_args("automaton", "parse", params, ins, 10))
+            except Exception as ex:  # noqa
+                import traceback
+                ob2 = core.Ob(f"C/parse-lib[{libname}]:table", "C", "merged lookup table = disjoint shifted copies of the library's automata")
+                run.add(ob2)
+                ob2.set(INCONCLUSIVE, f"engine error {ex!r} {traceback.format_exc()[-300:]}")
+            for o in [o for o in run.obs if o.id == f"C/parse-lib[{libname}]:table"]:
+                run.log(f"{o.status:12s} {o.id} {o.solver or ''} {o.solver_s:.1f}s {o.detail[:240]}")
+        jobs.append(both)
+    return jobs
+
+
 def check(run):
     tier = core.tier()
     A.build(run)
@@ -443,7 +709,7 @@ def check(run):
     ]
     run.outside += ["ParserGadget (fetch_bytes, date parsing) and the credential example circuits", "AutomatonChip with several automata in one table (state offsets beyond 1)"]
     table_lemma(run)          # first: on HOLDS the Base64 lookups are written with the RFC function
-    jobs = parse_jobs(run, tier) + b64_jobs(run, tier)
+    jobs = parse_jobs(run, tier) + b64_jobs(run, tier) + lib_jobs(run, tier)
     with ThreadPoolExecutor(8) as ex:
         list(ex.map(lambda f: f(), jobs))
     run.translator_validation.append("engine C (C19): for every extracted circuit the honest assignment of the real synthesis satisfies the dumped constraints exactly (big-int arithmetic) and MockProver::verify() accepts it; the two-character Base64 table is factored through a one-character function only after the factorisation is checked exactly against the dumped table")
@@ -454,6 +720,15 @@ def replay(payload):
         rep = table_replay(payload["c"])
         print(rep)
         return 1 if rep["reproduced"] else 0
+    if payload.get("kind") == "c19-libtable":
+        import subprocess
+        A.build()
+        p = subprocess.run([A.AXBIN] + payload["ax"], capture_output=True, text=True)
+        system = csmt.System(json.loads(p.stdout), csmt.P_BLS)
+        table, autos = lib_table_facts(system)
+        g = lib_table_ground(table, autos)
+        print("merged lookup table loaded by the real chip:", len(table), "rows; offsets with placement + disjoint state numbers + exactness:", g if g else "NONE", "; recorded:", payload.get("what"), payload.get("offsets"), payload.get("tuple"))
+        return 1 if g == [] else 0
     if payload.get("kind") == "c19-table":
         import subprocess
         A.build()
